@@ -10,6 +10,62 @@ if sys.path[0] != REPO:
 sys.dont_write_bytecode = True
 
 import numpy as np  # noqa: E402
+import time as _time_module  # noqa: E402
+
+# ---- the clock seam.  Installed before nptdms is imported, so that `from time import perf_counter` inside the code under
+# test binds the seam as well: every clock function delegates to the real one unless a simulated clock is active.
+_REAL_CLOCKS = {n: getattr(_time_module, n) for n in ('time', 'monotonic', 'perf_counter', 'time_ns', 'monotonic_ns',
+                                                      'perf_counter_ns')}
+ACTIVE_CLOCK = [None]
+
+
+def _clock_seam(name):
+    real = _REAL_CLOCKS[name]
+
+    def read():
+        c = ACTIVE_CLOCK[0]
+        return real() if c is None else c.read(name)
+    read.__name__ = name
+    return read
+
+
+if not getattr(_time_module, '_verif_clock_seam', False):
+    for _n in _REAL_CLOCKS:
+        setattr(_time_module, _n, _clock_seam(_n))
+    _time_module._verif_clock_seam = True
+
+
+def real_time():
+    """Wall clock of the machine (budgets, timeouts of the harness itself)."""
+    return _REAL_CLOCKS['time']()
+
+
+SIM_SECONDS = [0.0]       # simulated seconds let pass so far in this process (evidence)
+
+
+class SimClock(object):
+    """Simulated time: it stands still except for a microsecond per reading (so that two readings differ) and for what the
+    simulated caller lets pass (`advance`: think time between two requests, a slow disk) or what is done to the wall clock
+    (`step_wall`: NTP correction, a suspended laptop).  Every clock the code under test can read goes through here."""
+    def __init__(self):
+        self.mono = 5000.0
+        self.wall = 1700000000.0
+        self.readings = 0
+
+    def read(self, name):
+        self.readings += 1
+        self.mono += 1e-6
+        v = (self.wall + self.mono) if name.startswith('time') else self.mono
+        return int(v * 1e9) if name.endswith('_ns') else v
+
+    def advance(self, seconds):
+        self.mono += seconds
+        SIM_SECONDS[0] += seconds
+
+    def step_wall(self, seconds):
+        self.wall += seconds
+
+
 import nptdms  # noqa: E402
 try:
     import nptdms.reader as _reader_module  # noqa: E402   (only for the optional _array_equal knob)
@@ -87,6 +143,8 @@ def installed(fs):
 
     def p_stat(p, *a, **kw):
         return fs.stat(p) if simfs.sim_name(p) is not None else saved[5](p, *a, **kw)
+    prev_clock = ACTIVE_CLOCK[0]
+    ACTIVE_CLOCK[0] = fs.clock
     builtins.open = fs.open
     io.open = fs.open
     os.path.isfile, os.path.exists, os.path.getsize, os.stat = p_isfile, p_exists, p_getsize, p_stat
@@ -96,6 +154,7 @@ def installed(fs):
     try:
         yield fs
     finally:
+        ACTIVE_CLOCK[0] = prev_clock
         builtins.open, io.open = saved[0], saved[1]
         os.path.isfile, os.path.exists, os.path.getsize, os.stat = saved[2:6]
         os.path.getmtime = saved[6]
